@@ -308,6 +308,22 @@ def _check_tables(system, case, where, classes):
         if got != want:
             return {'observed': f'C{i} (privacy {case.get("hide")}): inherited members {got}', 'required': f'{want} (attribute lookup along the MRO)',
                     'class': 'tables'}
+        # the 'overrides' note of an own member names the definition that lookup along the rest of the MRO yields
+        if case.get('hide') is None:
+            from pydoctor.templatewriter import pages
+            from pydoctor.stanutils import flatten
+            import re as _re
+            for mem in MEMBERS:
+                if mem not in vars(py):
+                    continue
+                owner = next((k for k in py.__mro__[1:] if mem in vars(k)), None)
+                html = flatten(list(pages.get_override_info(c, mem)))
+                m = _re.search(r'overrides\s*<code>(.*?)</code>', html, _re.S)
+                named = _re.sub(r'<[^>]+>', '', m.group(1)).replace('\u200b', '').strip() if m else None
+                wanted = f'{where[int(owner.__name__[1:])]}.{owner.__name__}.{mem}' if owner is not None else None
+                if named != wanted:
+                    return {'observed': f"C{i}.{mem}: note says 'overrides {named}'", 'required': f'overrides {wanted} (first definition along the MRO after the class)',
+                            'class': 'override-note'}
     return None
 
 
